@@ -576,7 +576,8 @@ Definition channel_close (cfg : config) (s : state) (c h : N) : state :=
     let s := fold_left (fun s cm => consumer_stop s c h (c_tag cm)) (ch_consumers ch) s in
     let s := upd_chan s c h (fun ch => ch <| ch_consumers := [] |>) in
     let s := if 0 <? h then fst (handle_reject cfg s c h 0 true true 60 120) else s in
-    upd_chan s c h (fun ch => ch <| ch_status := ChClosed |>)
+    (* a publish that was being assembled is dropped with the channel: content frames that arrive later find no message *)
+    upd_chan s c h (fun ch => ch <| ch_status := ChClosed |> <| ch_cur := None |>)
   end.
 
 (* Queue.Delete + vhost.DeleteQueue.  [None] = refused (if-unused / if-empty). *)
